@@ -14,6 +14,10 @@
 (***************************************************************************)
 EXTENDS Prim
 
+\* The hash function.  Concrete instances substitute SHA1 (Hash <- SHA1 in the .cfg); the
+\* symbolic design models substitute an injective constructor.
+CONSTANT Hash(_)
+
 KeyLen == 32
 
 \* the built-in group
@@ -23,7 +27,7 @@ WoWg == 7
 K3   == <<3>>
 
 \* x = H(salt | H(U | ":" | P)), U and P already normalised (upper case)
-X(U, P, salt) == SHA1(salt \o SHA1(U \o <<58>> \o P))
+X(U, P, salt) == Hash(salt \o Hash(U \o <<58>> \o P))
 
 \* v = g^x mod N
 Verifier(g, N, U, P, salt) == Pad(BnModExp(<<g>>, X(U, P, salt), N), KeyLen)
@@ -35,7 +39,7 @@ ServerPub(g, N, v, b) == Pad(BnMod(BnAdd(BnMul(K3, v), BnModExp(<<g>>, b, N)), N
 ClientPub(g, N, a) == Pad(BnModExp(<<g>>, a, N), KeyLen)
 
 \* u = H(A | B)
-Uh(A, B) == SHA1(A \o B)
+Uh(A, B) == Hash(A \o B)
 
 \* server: S = (A * v^u)^b mod N
 ServerS(N, A, v, u, b) == Pad(BnModExp(BnMul(A, BnModExp(v, u, N)), b, N), KeyLen)
@@ -52,23 +56,23 @@ Strip(S) == LET z == LeadingZeros(S)
 SrpInterleave(S) ==
     LET s == Strip(S)
         h == Len(s) \div 2
-        G == SHA1([i \in 1..h |-> s[2*i - 1]])
-        F == SHA1([i \in 1..h |-> s[2*i]])
+        G == Hash([i \in 1..h |-> s[2*i - 1]])
+        F == Hash([i \in 1..h |-> s[2*i]])
     IN [i \in 1..40 |-> IF i % 2 = 1 THEN G[(i + 1) \div 2] ELSE F[i \div 2]]
 
 \* H(N) xor H(g), N as the 32 bytes announced
-XorHash(g, N) == XorBytes(SHA1(N), SHA1(<<g>>))
+XorHash(g, N) == XorBytes(Hash(N), Hash(<<g>>))
 
 \* M1 = H( H(N) xor H(g) | H(U) | salt | A | B | K )
-M1(g, N, U, salt, A, B, K) == SHA1(XorHash(g, N) \o SHA1(U) \o salt \o A \o B \o K)
+M1(g, N, U, salt, A, B, K) == Hash(XorHash(g, N) \o Hash(U) \o salt \o A \o B \o K)
 \* M2 = H( A | M1 | K )
-M2(A, m1, K) == SHA1(A \o m1 \o K)
+M2(A, m1, K) == Hash(A \o m1 \o K)
 
 \* reconnect proof = H( U | client challenge | server challenge | K )
-ReconnectProof(U, cdata, sdata, K) == SHA1(U \o cdata \o sdata \o K)
+ReconnectProof(U, cdata, sdata, K) == Hash(U \o cdata \o sdata \o K)
 
 \* world-server proof = H( U | 0^4 | client seed | server seed | K ), seeds 4 bytes LE
-WorldProof(U, cseed, sseed, K) == SHA1(U \o Zeros(4) \o cseed \o sseed \o K)
+WorldProof(U, cseed, sseed, K) == Hash(U \o Zeros(4) \o cseed \o sseed \o K)
 
 \* complete session key computations
 ServerK(N, A, B, v, b) == SrpInterleave(ServerS(N, A, v, Uh(A, B), b))
